@@ -308,7 +308,7 @@ func ruleFreshNonce(c *eng.Ctx) {
 		name := c.P.FnName(s.Fn) + ":Seal"
 		nonce := eng.Arg(s.Call, 1)
 		roots := eng.Origins(nonce, nil)
-		if len(roots) != 1 || !c.P.IsCallOf(roots[0], fnNonce) {
+		if len(roots) != 1 || !isFreshNonceCall(c, roots[0], 0) {
 			var ds []string
 			for _, r := range roots {
 				ds = append(ds, c.P.Describe(r))
